@@ -44,6 +44,10 @@ var Mutants = []Mutant{
 	{ID: "opsem-vm-popstrings-order", Props: []string{"C16"}, Rule: "R-OPSEM", File: "pkg/bytecode/vm.go", Find: "\tright := vm.popStringVal()\n\tleft := vm.popStringVal()\n\treturn string(right), string(left)", Replace: "\tleft := vm.popStringVal()\n\tright := vm.popStringVal()\n\treturn string(right), string(left)", Expect: "compileStringBinaryExpression#case:+", Describe: "popBinaryStrings pops left first: concatenation and comparisons of strings are mirrored on the VM"},
 	{ID: "opsem-compiler-lteq-table", Props: []string{"C16"}, Rule: "R-OPSEM", File: "pkg/bytecode/compiler.go", Find: "\tcase parser.OP_LTEQ:\n\t\treturn c.emit(OpNumLessThanEqual)", Replace: "\tcase parser.OP_LTEQ:\n\t\treturn c.emit(OpNumLessThan)", Expect: "compileNumBinaryExpression#case:<=", Describe: "<= on nums translated to the < opcode"},
 	{ID: "opsem-vm-modulo-operands", Props: []string{"C16"}, Rule: "R-OPSEM", File: "pkg/bytecode/vm.go", Find: "err = vm.push(numVal(math.Mod(left, right)))", Replace: "err = vm.push(numVal(math.Mod(right, left)))", Expect: "case:%", Describe: "VM modulo with swapped operands"},
+	{ID: "eq-array-no-length-test", Props: []string{"C01"}, Rule: "R-EQDEEP", File: "pkg/evaluator/value.go", Find: "\tif len(*a.Elements) != len(*a2.Elements) {\n\t\treturn false\n\t}\n\telements2 := *a2.Elements", Replace: "\tif len(*a.Elements) > len(*a2.Elements) {\n\t\treturn false\n\t}\n\telements2 := *a2.Elements", Expect: "(*arrayVal).Equals#lengths", Describe: "[1 2] == [1 2 3] is true"},
+	{ID: "eq-array-first-element", Props: []string{"C01"}, Rule: "R-EQDEEP", File: "pkg/evaluator/value.go", Find: "\t\te2 := elements2[i]\n\t\tif !e.Equals(e2) {\n\t\t\treturn false\n\t\t}\n\t}\n\treturn true\n}", Replace: "\t\te2 := elements2[len(elements2)-1-i]\n\t\tif !e.Equals(e2) {\n\t\t\treturn false\n\t\t}\n\t}\n\treturn true\n}", Expect: "(*arrayVal).Equals#same-index", Describe: "array equality pairs element i with element n-1-i"},
+	{ID: "eq-any-ignores-type", Props: []string{"C01"}, Rule: "R-EQDEEP", File: "pkg/evaluator/value.go", Find: "return a.T.Equals(a2.T) && a.V.Equals(a2.V)", Replace: "return a.V.Equals(a2.V)", Expect: "(*anyVal).Equals#type-and-value", Describe: "an any compares by value only"},
+	{ID: "eq-vm-array-true-early", Props: []string{"C16"}, Rule: "R-EQDEEP", File: "pkg/bytecode/value.go", Find: "\t\tif !e.Equals(e2) {\n\t\t\treturn false\n\t\t}\n\t}\n\treturn true\n}", Replace: "\t\tif e.Equals(e2) {\n\t\t\treturn true\n\t\t}\n\t}\n\treturn len(a.Elements) == 0\n}", Expect: "(arrayVal).Equals#", Describe: "VM arrays are equal when one pair of elements is"},
 	// C02 / C13
 	{ID: "normalizeIndex-no-roundtrip", Props: []string{"C02"}, Rule: "R-F2I/pkg/evaluator", File: "pkg/evaluator/value.go", Find: "\tif index.V != float64(i) {\n\t\treturn 0, fmt.Errorf(\"%w: %v\", ErrIndexValue, index.V)\n\t}\n", Replace: "", Expect: "normalizeIndex#f2i", Describe: "round-trip test dropped"},
 	{ID: "builtin-assert-mismatch", Props: []string{"C02", "C13"}, Rule: "R-BUILTINSIG", File: "pkg/evaluator/builtin.go", Find: "\tsep := args[1].(*stringVal)\n\ts := join(*arr.Elements, sep.V)", Replace: "\tsep := args[1].(*anyVal).V.(*stringVal)\n\ts := join(*arr.Elements, sep.V)", Expect: "builtin:join", Describe: "join asserts its separator to be an any"},
